@@ -131,6 +131,14 @@ def _canon(obj, memo, out):
         out.append(repr(obj))
 
 
+def _public(d):
+    """Ghost entries whose name starts with "_" are payload (e.g. a twin's snapshot) that is
+    fully determined by a sibling key entry; they are not part of the state identity."""
+    if isinstance(d, dict):
+        return {k: _public(v) for k, v in d.items() if not (isinstance(k, str) and k.startswith("_"))}
+    return d
+
+
 class Res(object):
     """What one move returned / raised."""
 
@@ -250,7 +258,7 @@ class Sim(object):
         hh = dict(self.h)
         hh.pop("steps", None)
         out.append(json.dumps(hh, sort_keys=True, default=repr))
-        out.append(json.dumps(self.ghost, sort_keys=True, default=repr))
+        out.append(json.dumps(_public(self.ghost), sort_keys=True, default=repr))
         if with_budget:
             out.append(json.dumps(self.budget, sort_keys=True))
         return "".join(out)
